@@ -26,7 +26,7 @@ pub fn c10_meta(tier: Tier) -> Meta {
              Neighbour histories: [p-1, p], [(p-1)/2, p-1, p], [p, 2p, 2p+1], [p-1, p, 2p] for every prime p in 37..=600 (quick) / 4000 (thorough). \
              Plan lifetime: histories in which the caller DROPS every returned transform before the next request (repeats, both directions, halves/doubles/quadruples of landmark sizes from 1000 up to 5*2^18 and 2^20 (quick) / 2^23 (thorough), and a third as many random histories), each transform judged against the analytic DFT column of a unit impulse (and a dense vector up to 2^16). \
              Window-fill: proptest-drawn histories of 2-5 requests with lengths inside [p, 4p] (candidate inner lengths and lengths just too short to be one) followed by a Bluestein prime p and a multiple of it. \
-             Random: {cases} proptest-drawn histories of length 1..12 over the divisor lattices of 5040*{{1,11,13,59,251}} and 2^a*3^b lengths (Bluestein inner sizes), all four planners. \
+             Random: {cases} proptest-drawn histories of length 1..12 over the divisor lattices of 5040*{{1,11,13,59,251}} (quick tier: divisors up to 2^16) and 2^a*3^b lengths (Bluestein inner sizes), all four planners. \
              Oracle for EVERY transform returned in a history: len()/fft_direction(); C02 bound on a dense vector and C01 tolerance on an impulse against the reference DFT, through a rotating entry point with exactly the advertised scratch (the last request of a history through ALL four entry points); C06 round trip whenever both directions of a length were returned; all of it after the planner has been dropped; and a twin planner fed the same history must return transforms with bit-identical outputs. \
              Non-trivial: the history contains a request that the planner splices onto something an earlier request built (AVX: plan shows CacheBase(b), b < n; scalar/SSE: a sub-recipe length built earlier in that direction), as reported by the plan-report hook just before the request.",
         ),
@@ -253,7 +253,9 @@ pub fn c10_worker(ctx: &mut Ctx) {
     let mut lattice: Vec<Vec<usize>> = vec![];
     for q in [1usize, 11, 13, 59, 251] {
         let n = 5040 * q;
-        let mut d: Vec<usize> = (2..=n).filter(|x| n % x == 0).collect();
+        // quick tier: divisors up to 2^16 (a history of several million-point requests costs minutes of reference DFTs)
+        let dcap = ctx.tier.pick(1usize << 16, n);
+        let mut d: Vec<usize> = (2..=n.min(dcap)).filter(|x| n % x == 0).collect();
         d.sort();
         lattice.push(d);
     }
